@@ -372,7 +372,7 @@ class SqlCon:
                     raise PyRaise(sqlite3.OperationalError(f"table {m.group(1)} has no column named {n}"))
             for p in params:
                 u = self.it.unbase(p)
-                if not (u is None or isinstance(u, (int, float, str, bytes, SInt, SStr, SBool)) or type(u).__name__ in ("SBytes", "ISOText")):
+                if not (u is None or isinstance(u, (int, float, str, bytes, SInt, SStr, SBool)) or type(u).__name__ in ("SBytes", "ISOText", "IPText")):
                     raise PyRaise(sqlite3.ProgrammingError(f"Error binding parameter: type '{self.it.type_name(p)}' is not supported"))
                 if isinstance(u, int) and not isinstance(u, bool) and not -(2**63) <= u < 2**63:
                     raise PyRaise(OverflowError("Python int too large to convert to SQLite INTEGER"))
